@@ -32,7 +32,7 @@ package statecache
 // ================= C07: writes are private until commit; values are never shared =================
 
 // A transaction's writes and removals touch only its own map.
-//@ func (*TransactionCache).Set
+//@ func (*TransactionCache).Set(tc, key, e)
 //@   props C07
 //@   mode wrap
 //@   requires TxnWF(tc) && e != nil
@@ -41,7 +41,7 @@ package statecache
 //@   ensures forall k string :: k != key ==> (k in tc.cache) == old(k in tc.cache) && tc.cache[k] == old(tc.cache[k])       #other-keys-untouched
 //@   ensures TxnWF(tc)
 
-//@ func (*TransactionCache).Remove
+//@ func (*TransactionCache).Remove(tc, key)
 //@   props C07
 //@   mode wrap
 //@   requires TxnWF(tc)
@@ -52,7 +52,7 @@ package statecache
 
 // Own uncommitted writes first; what is handed out is a copy; a lookup changes neither the
 // transaction's nor any block's pending map (only the committed store may memoise).
-//@ func (*TransactionCache).Get returns (v, ok)
+//@ func (*TransactionCache).Get(tc, key) returns (v, ok)
 //@   props C07 C06
 //@   mode wrap
 //@   requires TxnWF(tc)
@@ -61,7 +61,7 @@ package statecache
 //@   ensures old(key in tc.cache) && old(tc.cache[key].deleted) ==> !ok                                                     #own-removal-misses
 
 // Commit hands every pending entry to the block cache (which stores a copy) and empties the map.
-//@ func (*TransactionCache).Commit
+//@ func (*TransactionCache).Commit(tc)
 //@   props C07
 //@   mode wrap
 //@   requires TxnWF(tc) && tc.main is *BlockCache
@@ -71,7 +71,7 @@ package statecache
 //@   loop 1 latch key in tc.main.(*BlockCache).cache && tc.main.(*BlockCache).cache[key].deleted == value.deleted && Copy(tc.main.(*BlockCache).cache[key].data, value.data)      #entry-handed-over-as-copy
 
 // A block's writes touch only its own pending map.
-//@ func (*BlockCache).Set
+//@ func (*BlockCache).Set(pcc, key, e)
 //@   props C07
 //@   mode wrap
 //@   requires pcc.cache != nil && e != nil
@@ -79,7 +79,7 @@ package statecache
 //@   ensures key in pcc.cache && !pcc.cache[key].deleted && Copy(pcc.cache[key].data, e)                                    #stores-a-copy
 //@   ensures forall k string :: k != key ==> (k in pcc.cache) == old(k in pcc.cache) && pcc.cache[k] == old(pcc.cache[k])   #other-keys-untouched
 
-//@ func (*BlockCache).setValue
+//@ func (*BlockCache).setValue(pcc, key, v)
 //@   props C07
 //@   mode wrap
 //@   requires pcc.cache != nil && v.data != nil
@@ -87,7 +87,7 @@ package statecache
 //@   ensures key in pcc.cache && pcc.cache[key].deleted == v.deleted && Copy(pcc.cache[key].data, v.data)                   #stores-a-copy
 //@   ensures forall k string :: k != key ==> (k in pcc.cache) == old(k in pcc.cache) && pcc.cache[k] == old(pcc.cache[k])   #other-keys-untouched
 
-//@ func (*BlockCache).remove
+//@ func (*BlockCache).remove(pcc, key)
 //@   props C07
 //@   mode wrap
 //@   requires pcc.cache != nil
@@ -95,7 +95,7 @@ package statecache
 //@   ensures key in pcc.cache && pcc.cache[key].deleted                                                                      #tombstone
 //@   ensures forall k string :: k != key ==> (k in pcc.cache) == old(k in pcc.cache) && pcc.cache[k] == old(pcc.cache[k])   #other-keys-untouched
 
-//@ func (*BlockCache).Get returns (v, ok)
+//@ func (*BlockCache).Get(pcc, key) returns (v, ok)
 //@   props C07 C06
 //@   mode wrap
 //@   requires BlockWF(pcc)
@@ -103,11 +103,11 @@ package statecache
 //@   ensures old(key in pcc.cache) && !old(pcc.cache[key].deleted) ==> ok && Copy(v, old(pcc.cache[key].data))              #own-write-first-as-copy
 //@   ensures old(key in pcc.cache) && old(pcc.cache[key].deleted) ==> !ok                                                   #own-removal-misses
 
-//@ func (String).Clone returns (r)
+//@ func (String).Clone(se) returns (r)
 //@   props C07
 //@   assigns nothing
 //@   ensures r != nil
-//@ func (*EmptyValue).Clone returns (r)
+//@ func (*EmptyValue).Clone(e) returns (r)
 //@   props C07
 //@   assigns nothing
 //@   ensures r != nil
@@ -119,7 +119,7 @@ package statecache
 // if there is one, else the truth at its parent, else nothing.
 //@ spec Truth(H (Array Iface Bool), V (Array Iface Iface), PH (Array Iface Bool), PV (Array Iface Iface), b Iface) Iface = H[b] ? V[b] : (PH[b] ? Truth(H, V, PH, PV, PV[b]) : nilIface())
 
-//@ func (*StateCache).Get returns (v, ok)
+//@ func (*StateCache).Get(sc, key, blockHash) returns (v, ok)
 //@   props C06 C07
 //@   mode wrap
 //@   requires SCShape(sc)
@@ -137,7 +137,7 @@ package statecache
 //@   loop 1 invariant Truth(LruHas[bvs], LruVal[bvs], LruHas[sc.hashCache], LruVal[sc.hashCache], iface(oldBlockHash)) == Truth(LruHas[bvs], LruVal[bvs], LruHas[sc.hashCache], LruVal[sc.hashCache], iface(blockHash))      #same-truth-along-the-chain
 //@   loop 1 invariant LruHas[bvs] == old(LruHas[bvs]) && LruVal[bvs] == old(LruVal[bvs]) && LruHas[sc.hashCache] == old(LruHas[sc.hashCache]) && LruVal[sc.hashCache] == old(LruVal[sc.hashCache])      #nothing-written-yet
 
-//@ func (*QueryBlockCache).Get returns (v, ok)
+//@ func (*QueryBlockCache).Get(qbc, key) returns (v, ok)
 //@   props C06
 //@   mode wrap
 //@   requires qbc.sc != nil && SCShape(qbc.sc)
@@ -146,7 +146,7 @@ package statecache
 // Commit of a block: every pending entry is stored under (key, block hash) as a copy, the parent link
 // is published only after all keys are written, and the pending map is emptied; a block that is
 // already committed changes nothing.
-//@ func (*StateCache).commit
+//@ func (*StateCache).commit(sc, bc)
 //@   props C06 C07
 //@   mode wrap
 //@   requires SCShape(sc) && bc != nil && bc.cache != nil && (forall k string :: k in bc.cache ==> bc.cache[k].deleted || bc.cache[k].data != nil)
@@ -159,7 +159,7 @@ package statecache
 //@      | && LruVal[LruVal[sc.cache][iface(key)].(*lru.Cache)][iface(bc.blockHash)].(valueNode).deleted == bc.cache[key].deleted
 //@      | && (bc.cache[key].data != nil ==> Copy(LruVal[LruVal[sc.cache][iface(key)].(*lru.Cache)][iface(bc.blockHash)].(valueNode).data, bc.cache[key].data))      #entry-committed-as-copy
 
-//@ func (*BlockCache).Commit
+//@ func (*BlockCache).Commit(pcc)
 //@   props C07
 //@   mode wrap
 //@   requires BlockWF(pcc)
